@@ -180,8 +180,9 @@ def _point_witness(ctx: Ctx, fn: FunctionInfo, integer: bool):
     return None
 
 
-def check_bounded(ctx: Ctx, rule: str, fn: FunctionInfo, integer: bool) -> None:
-    """result of fn(min, max) lies in [min, max] for all min <= max."""
+def check_bounded(ctx: Ctx, rule: str, fn: FunctionInfo, integer: bool, cls=None) -> None:
+    """result of fn(min, max) lies in [min, max] for all min <= max.  A method of an abstract class that calls an abstract hook
+    (template method) is analysed once per concrete subclass that inherits it, with the hook of that subclass inlined."""
     params = [p for p in fn.params if p != "self"]
     if len(params) < 2:
         ctx.ob(rule, fn, fn.node, "bounded draw signature", None, "fewer than two bound parameters")
@@ -192,14 +193,26 @@ def check_bounded(ctx: Ctx, rule: str, fn: FunctionInfo, integer: bool) -> None:
     env.hooks.append(model.call)
     env.sub_hooks.append(model.sub)
     from ..inline import make_inline_hook
-    ih = make_inline_hook(ctx.prog, fn.cls, fn.module, skip=("randint", "random_float", "random", "read", "get", "choice", "random_bool"))
+    ih = make_inline_hook(ctx.prog, cls or fn.cls, fn.module, skip=("randint", "random_float", "random", "read", "get", "choice", "random_bool"))
     env.hooks.append(ih)
     env.assume_hooks.append(ih.assume)
     outs = interp(fn.node.body, env)
+    if cls is None and fn.cls is not None:
+        from ..frontend import is_stub
+        hooks_ = {o.value.why[5:].strip() for o in outs if o.kind == "return" and isinstance(o.value, Opaque) and o.value.why.startswith("call ")}
+        abstract_hooks = {h for h in hooks_ if (m := ctx.prog.lookup_method(fn.cls, h)) is not None and is_stub(m.node)}
+        if abstract_hooks:
+            subs = [c for c in ctx.prog.subclasses(fn.cls.fullname) if ctx.prog.lookup_method(c, fn.name) is fn
+                    and all((m := ctx.prog.lookup_method(c, h)) is not None and not is_stub(m.node) for h in abstract_hooks)]
+            if subs:
+                for c in sorted(subs, key=lambda x: x.fullname):
+                    check_bounded(ctx, rule, fn, integer, cls=c)
+                return
+    tag = f" [{cls.name}]" if cls is not None else ""
     if not outs:
         ctx.ob(rule, fn, fn.node, "bounded draw", None, "no path")
     for o in outs:
-        cond = "; ".join(o.conds) or "all inputs"
+        cond = ("; ".join(o.conds) or "all inputs") + tag
         if o.kind == "raise":
             continue
         if o.kind != "return" or o.value is None:
